@@ -70,12 +70,12 @@ pub open spec fn spec_scoped(w: W, bs: Seq<(Expr, SourcedValue)>, stmts: Seq<Stm
 
 SPEC = r"""
     ensures
-        out(r) == spec_scoped(old(scopes).world(), new_bindings@, stmts@), // [C07:a_scope_forwards_the_signal_of_its_statement_sequence_unchanged_after_declaring_its_bindings_in_order_in_a_fresh_scope]
+        out(r) == spec_scoped(old(scopes).world(), new_bindings@, stmts@), // [C07_C14_C20:a_scope_forwards_the_signal_of_its_statement_sequence_unchanged_after_declaring_its_bindings_in_order_in_ONE_fresh_scope_shared_with_the_body]
         r matches Err(e) ==> located(e), // [C17:scope_errors_are_located]
 """
 SPEC2 = r"""
     ensures
-        out(r) == spec_scoped(old(outer_scopes).world(), Seq::empty(), stmts@), // [C07:a_block_runs_in_a_fresh_scope_and_forwards_its_signal_unchanged]
+        out(r) == spec_scoped(old(outer_scopes).world(), Seq::empty(), stmts@), // [C07_C20:a_block_runs_in_a_fresh_scope_and_forwards_its_signal_unchanged]
         r matches Err(e) ==> located(e), // [C17:scope_errors_are_located]
 """
 
